@@ -598,13 +598,13 @@ def c07(tier):
     hb = {'hb': True, 'yield_blocks': True}
     hbn = {'hb': True, 'yield_blocks': False}
     if tier == 'quick':
-        qs.append(mk('hb_lr_w1_r1_R3', 'c03_lr.cpp', [W, R1], 3, final='vp_final', cover=3, defines=['NWRITES=1', 'NREADS=1'], opts=hb, timeout=900))
-        qs.append(mk('hb_lr_w2_r1_R3', 'c03_lr.cpp', [W, R1], 3, final='vp_final', cover=3, defines=['NWRITES=2', 'NREADS=1'], opts=hb, timeout=900))
+        qs.append(mk('hb_lr_w1_r1_R3', 'c03_lr.cpp', [W, R1], 3, final='vp_final', cover=3, defines=['NWRITES=1', 'NREADS=1'], opts=hb, timeout=1500))
         qs.append(mk('hb_trip_explicit_mv0_R3', 'c19_tripwire.cpp', [('O', 'vp_owner'), ('D', 'vp_detector')], 3, final='vp_final', cover=3,
                      defines=['LINEKIND=1', 'MV=0'], opts=hbn, unwind=4, checks='pointer', must_cover=4, timeout=900))
         qs.append(mk('hb_latch_w_a2_R4', 'c10_latch.cpp', [('W', 'vp_waiter'), ('A', 'vp_arriver')], 4, cover=3, defines=['NARRIVE=2', 'HB_DATA'],
                      opts=dict(hbn, spur=1), unwind=4, timeout=900))
     else:
+        qs.append(mk('hb_lr_w2_r1_R3', 'c03_lr.cpp', [W, R1], 3, final='vp_final', cover=3, defines=['NWRITES=2', 'NREADS=1'], opts=hb, timeout=3400))
         qs.append(mk('hb_lr_w2_r1_r1_R3', 'c03_lr.cpp', [W, R1, R2], 3, final='vp_final', cover=3, defines=['NWRITES=2', 'NREADS=1'], opts=hb, timeout=3000))
         qs.append(mk('hb_lr_w2_r2_R4', 'c03_lr.cpp', [W, R1], 4, final='vp_final', cover=3, defines=['NWRITES=2', 'NREADS=2'], opts=hb, timeout=3000))
         for mv in (0, 1, 2):
